@@ -1,8 +1,63 @@
-From Coq Require Import List Arith ZArith.
+(* Props/C10.v — untruncated tensor-network decoders are maximum-likelihood decoders.
+   What is proved here is the exact oracle (Tensor/Coset.v): the enumeration of the stabilizer group
+   counts every element once, the coset probability is a function of the coset, the arg-max choice
+   returns the first maximal index, and the planar qubit-node value is the local factor of the sum.
+   The link "column-sweep contraction = value of the network" is Props/C11.v (c11_sweep_exact, c11_split);
+   that each decoder's network (create_tn) has the coset sum as its value is NOT proved in Coq: it is
+   checked by harness/c10.py against the exact sums on every generated case. *)
+From Coq Require Import List Arith Lia Bool ZArith.
 From QV Require Import Core.Bits Tensor.Sums Tensor.Coset.
-Theorem c10_choice : forall ps, ps <> nil ->
+Import ListNotations.
+Local Open Scope nat_scope.
+
+(* c10_enumeration [P-forall]: for independent generators the 2^m products are pairwise distinct, closed
+   under multiplication, and contain the identity: the sum over stabilizer-bit assignments is the sum over
+   the stabilizer group, no element counted twice *)
+Theorem c10_enumeration : forall len gens, Forall (fun g => length g = len) gens -> indep len gens ->
+  NoDup (span_list len gens) /\ length (span_list len gens) = 2 ^ length gens
+  /\ In (zeros len) (span_list len gens)
+  /\ (forall u v, In u (span_list len gens) -> In v (span_list len gens) -> In (xorv u v) (span_list len gens)).
+Proof.
+  intros len gens HF HI. split; [apply span_nodup; assumption|]. split; [apply span_count|].
+  split; [apply span_zero|]. apply span_closed. exact HF.
+Qed.
+(* the coset probability depends only on the coset f.G, not on the representative [P-forall, any ring] *)
+Theorem c10_coset_well_defined : forall (K : cring) (d : dist K) n gens f g,
+  Forall (fun g => length g = n + n) gens -> indep (n + n) gens -> In g (span_list (n + n) gens) ->
+  coset_prob K d n gens (xorv f g) = coset_prob K d n gens f.
+Proof. exact coset_prob_well_defined. Qed.
+(* c10_choice [P-forall]: Python's max over zip returns the first index of the maximum *)
+Theorem c10_choice : forall ps, ps <> [] ->
   ml_choice ps < length ps
   /\ (forall j, j < length ps -> (nth j ps 0 <= nth (ml_choice ps) ps 0)%Z)
   /\ (forall j, j < ml_choice ps -> (nth j ps 0 < nth (ml_choice ps) ps 0)%Z).
 Proof. exact ml_choice_spec. Qed.
-Print Assumptions c10_choice.
+(* c10_node_value [P-forall]: the horizontal-edge node value is the probability of f.Z^n.X^e.Z^s.X^w; the
+   vertical-edge value is the same with the index order rotated *)
+Theorem c10_node_value : forall (K : cring) (d : dist K) fx fz n e s w,
+  prob K d 1 (xorv [fx; fz] (xorv [false; n] (xorv [e; false] (xorv [false; s] [w; false]))))
+  = rmul K (h_node K d fx fz n e s w) (r1 K)
+  /\ v_node K d fx fz n e s w = h_node K d fx fz e s w n.
+Proof. intros. split; [apply h_node_is_prob|reflexivity]. Qed.
+
+(* ---- NOT proved: kept visible ---------------------------------------------------------------- *)
+(* the network of a decoder contracts to the coset probability: [network] stands for the decoder's
+   create_tn followed by the exact contraction value of Tensor/Net.v *)
+Definition c10_network_statement (K : cring) (network_value : dist K -> nat -> list bsf -> bsf -> K) : Prop :=
+  forall d n gens f, Forall (fun g => length g = n + n) gens -> indep (n + n) gens ->
+    network_value d n gens f = coset_prob K d n gens f.
+(* the four candidates f, f.X, f.X.Z, f.Z exhaust the errors with the syndrome of f (one logical qubit) *)
+Definition c10_four_cosets_statement : Prop :=
+  forall n (gens : list bsf) (lx lz f e : bsf) (commutes : bsf -> bsf -> bool),
+    (forall g, In g gens -> commutes e g = commutes f g) ->
+    exists c, In c [f; xorv f lx; xorv (xorv f lx) lz; xorv f lz] /\ In (xorv e c) (span_list (n + n) gens).
+
+(* non-vacuity: the four-qubit [[4,2,2]]-style pair XXXX, ZZZZ on 4 qubits, depolarizing numerators 7,1,1,1 *)
+Example c10_example :
+  let gens := [[true;true;true;true;false;false;false;false]; [false;false;false;false;true;true;true;true]] in
+  indep 8 gens /\ coset_prob Zring (7, 1, 1, 1)%Z 4 gens (zeros 8) = (7*7*7*7 + 1 + 1 + 1)%Z
+  /\ ml_choice [3; 9; 9; 2]%Z = 1.
+Proof. cbn. repeat split; try reflexivity; intuition discriminate. Qed.
+
+Print Assumptions c10_enumeration. Print Assumptions c10_coset_well_defined. Print Assumptions c10_choice.
+Print Assumptions c10_node_value.
